@@ -47,7 +47,7 @@ var Meta = map[string]PropMeta{
 	"C19": {
 		Level:       "exploration",
 		Technique:   "deterministic simulation: real daemon accept loop (Server.Serve) on a simulated listener whose connections carry chosen peer addresses; reference daemon client asks for the module; independent first-match model written with net/netip as oracle; thorough tier enumerates the whole rule-pool product",
-		Rule:        "rule lists of length 0..3 from a pool of 34 rules (allow/deny x all, /0, /8, /24, /32, /128, IPv4-mapped prefixes, nested and disjoint networks, and malformed rules: missing space, unknown action (with 'all', and with a valid network so that only a non-matching address exposes a skipped check), bare address, bad prefix length, double space, trailing space, upper case, bad octet, empty) x addresses from a pool of 26 (IPv4, IPv6, IPv4-mapped IPv6 on and around every prefix boundary). Oracle: '@RSYNCD: OK' and a complete session iff the first rule containing the address says allow or no rule matches; otherwise (also when evaluation reaches a malformed rule) an @ERROR line followed by EOF with no further byte. quick samples lists and 6 addresses per list; thorough enumerates all 1+34+34^2+34^3 = 40495 lists x all 26 addresses. Non-trivial = non-empty rule list",
+		Rule:        "rule lists of length 0..3 from a pool of 34 rules (allow/deny x all, /0, /8, /24, /32, /128, IPv4-mapped prefixes, nested and disjoint networks, and malformed rules: missing space, unknown action (with 'all', and with a valid network so that only a non-matching address exposes a skipped check), bare address, bad prefix length, double space, trailing space, upper case, bad octet, empty) x addresses from a pool of 26 (IPv4, IPv6, IPv4-mapped IPv6 on and around every prefix boundary). Oracle: '@RSYNCD: OK' and a complete session iff the first rule containing the address says allow or no rule matches; otherwise (also when evaluation reaches a malformed rule) an @ERROR line followed by EOF with no further byte. quick samples lists and 6 addresses per list; thorough enumerates all 1+34+34^2+34^3 = 40495 lists x all 26 addresses. Non-trivial = non-empty rule list Some clients ignore the @ERROR line and carry on with the protocol; they must still receive nothing.",
 		Assumptions: []string{"input/configuration-quantified (pure decision function); the simulated network supplies arbitrary peer addresses, which real sockets cannot", "independent model semantics for IPv4-mapped addresses: an IPv4 prefix contains the corresponding mapped IPv6 address and vice versa (what net.IPNet.Contains does)"},
 		Real:        realCommon, Stub: append([]string{"client: reference daemon client"}, stubCommon...),
 		Quick:     q(6000, 35*time.Second),
@@ -57,7 +57,7 @@ var Meta = map[string]PropMeta{
 	"C20": {
 		Level:       "exploration",
 		Technique:   "deterministic simulation as execution vehicle: the real daemon entry point (maincmd.Main through rsynccmd, listener hook under build tag verif) serves its SSH listeners on a simulated network inside the worker; golang.org/x/crypto/ssh clients connect with generated keys and send exec/shell/subsystem/pty/env requests and channel opens; canary ring and channel output as oracles",
-		Rule:        "auth mode: authorized_ssh listener with an authorized_keys file in one of 4 layouts (plain, comments and blank lines, options prefix and comment suffix, empty) listing a random subset of 2-5 generated keys of types ed25519/ecdsa-256/384/521/rsa-2048; every key connects: handshake must succeed iff the key is listed, and an admitted client gets the module listing through 'rsync --server --daemon .'. anon mode: anon_ssh listener with a writable module; 5 (thorough 12) sessions: the daemon invocation (3 spellings), shell/subsystem/pty-req, foreign channel types, and exec command lines from a 34-entry grammar (command-mode server on outside paths with and without --sender/--delete, client-mode local and remote transfers, -e/--rsh with a canary script, RSYNC_RSH via env, daemon flags, --version/--help, other programs, empty line). Oracle: every non-daemon command line ends with a non-zero exit status or a refused request/channel; no canary content on the channel; nothing created, changed, deleted or executed outside the module; no outside content copied into the module; the daemon invocation serves the listing. Non-trivial = every run",
+		Rule:        "auth mode: authorized_ssh listener with an authorized_keys file in one of 4 layouts (plain, comments and blank lines, options prefix and comment suffix, empty) listing a random subset of 2-5 generated keys of types ed25519/ecdsa-256/384/521/rsa-2048; every key connects: handshake must succeed iff the key is listed, and an admitted client gets the module listing through 'rsync --server --daemon .'. anon mode: anon_ssh listener with a writable module; 5 (thorough 12) sessions: the daemon invocation (3 spellings), shell/subsystem/pty-req, foreign channel types, and exec command lines from a 34-entry grammar (command-mode server on outside paths with and without --sender/--delete, client-mode local and remote transfers, -e/--rsh with a canary script, RSYNC_RSH via env, daemon flags, --version/--help, other programs, empty line). Oracle: every non-daemon command line ends with a non-zero exit status or a refused request/channel; no canary content on the channel; nothing created, changed, deleted or executed outside the module; no outside content copied into the module; the daemon invocation serves the listing. Non-trivial = every run Command lines without a program name; behind every accepted --server command the check plays the matching client for real; unlisted keys wrapped in certificates naming a listed key as issuer (forged, and really signed by the listed key).",
 		Assumptions: []string{"input/configuration-quantified; SSH key exchange uses crypto/rand, so event logs (not verdicts) differ between runs", "built with the repository's nonamespacing tag and GOKRAZY_RSYNC_PRIVDROP=1 so that the daemon does not re-execute itself in a mount namespace; landlock relaxed through restrict.ExtraHook", "only the anonymous listener is held to 'daemon protocol only' (command mode is the documented use of the authorised one)"},
 		Real:        append([]string{"internal/anonssh", "internal/maincmd daemon branch", "internal/rsyncdconfig", "golang.org/x/crypto/ssh (server and client)"}, realCommon...), Stub: append([]string{"non-parking simulated connections (x/crypto/ssh holds a mutex across Write)"}, stubCommon...),
 		Quick:            q(300, 60*time.Second),
@@ -69,7 +69,7 @@ var Meta = map[string]PropMeta{
 	"C02": {
 		Level:       "exploration",
 		Technique:   "deterministic simulation: reference protocol-27 receiver (independent implementation, cross-checked against tridge rsync 3.2.7) drives the real sender with block-checksum sets of its own choosing over bases of its own choosing; reference sender drives the real receiver with scripted token streams; scheduled transport and short-reading simulated sender disk; bounded enumeration of the small-alphabet sub-space in the thorough tier",
-		Rule:        "sender mode: 1-6 files per session, each a (target, basis, block length, strong length) case: small alphabets {a,b}/{a,b,c} with lengths 0..12 and block lengths 1..8, or large files up to 3 MiB with block lengths 700..131072 (incl. multiples of 8 and tiny legal ones), bases = edited variants incl. weak-checksum-colliding blocks (+1,-2,+1 byte patch keeps the rolling sum), duplicated blocks, remainder block recurring mid-file; real daemon serves from a directory or from a short-reading fs.FS. Oracle: tokens applied to the basis == source bytes, trailer == MD4(seed||source), head echoed; with a truncated strong sum a mismatch is accepted only if weak and truncated strong sums of the referenced block and the target window are equal. receiver mode: real pulling client, destination holds bases, reference sender answers with random scripts (literal runs 1 B..256 KiB+1, block references in any order, repeated, remainder block mid-file); oracle: file written == bytes denoted. thorough additionally enumerates ALL targets x bases over {a,b} of length 1..6 x block lengths 1..4 (63504 cases). Non-trivial = a reply with both block references and literals (sender) / scripts with block references (receiver)",
+		Rule:        "sender mode: 1-6 files per session, each a (target, basis, block length, strong length) case: small alphabets {a,b}/{a,b,c} with lengths 0..12 and block lengths 1..8, or large files up to 3 MiB with block lengths 700..131072 (incl. multiples of 8 and tiny legal ones), bases = edited variants incl. weak-checksum-colliding blocks (+1,-2,+1 byte patch keeps the rolling sum), duplicated blocks, remainder block recurring mid-file; real daemon serves from a directory or from a short-reading fs.FS. Oracle: tokens applied to the basis == source bytes, trailer == MD4(seed||source), head echoed; with a truncated strong sum a mismatch is accepted only if weak and truncated strong sums of the referenced block and the target window are equal. receiver mode: real pulling client, destination holds bases, reference sender answers with random scripts (literal runs 1 B..256 KiB+1, block references in any order, repeated, remainder block mid-file); oracle: file written == bytes denoted. thorough additionally enumerates ALL targets x bases over {a,b} of length 1..6 x block lengths 1..4 (63504 cases). Non-trivial = a reply with both block references and literals (sender) / scripts with block references (receiver) Block lengths include values above the 128 KiB limit of later protocols (up to 2^29) and strong-checksum lengths 1..16.",
 		Assumptions: []string{"refproto is the trusted base (go test ./refproto validates it against /usr/bin/rsync --protocol=27 when present)", "file sizes <= 3 MiB"},
 		Real:        realCommon, Stub: append([]string{"peer: reference protocol-27 receiver/sender (verif/sim/refproto)", "sender disk for fs.FS modules: simfs with seeded short reads"}, stubCommon...),
 		Quick:     q(4000, 40*time.Second),
@@ -79,7 +79,7 @@ var Meta = map[string]PropMeta{
 	"C03": {
 		Level:       "fault_enumeration",
 		Technique:   "deterministic simulation with fault injection: single-bit flips in flight addressed protocol-relative (token word / literal byte / trailer byte of a given file, located by decoding the fault-free run's wire history), an external writer mutating the basis between signature generation and reconstruction (at a scheduler step), and a reference sender that describes other bytes than its (true) trailer claims",
-		Rule:        "wire mode: 1-3 files of the shapes whole-file / mixed delta / pure delta, real sender and real receiver in pull and push (A1, A2, A3 both ways); a fault-free run is decoded to enumerate all token-word, literal and trailer byte positions; then 10 (thorough: 30) single faults per scenario: bit flip at a drawn position of a drawn class (token words: bits 0-10,12,16,20,31), or basis mutation at a drawn step. Oracle after each faulted run: every listed file holds its previous content (or the externally written one) or exactly the sender's content; a session reporting success has updated every file the rule requires. script mode (every 5th run): reference sender answers with the honest token stream perturbed (other valid block index, literal runs swapped/duplicated, token dropped, truncated) but the TRUE whole-file checksum: destination must stay unchanged and the client must fail. Non-trivial = at least one fault run on a session with data replies / a perturbation denoting different bytes",
+		Rule:        "wire mode: 1-3 files of the shapes whole-file / mixed delta / pure delta, real sender and real receiver in pull and push (A1, A2, A3 both ways); a fault-free run is decoded to enumerate all token-word, literal and trailer byte positions; then 10 (thorough: 30) single faults per scenario: bit flip at a drawn position of a drawn class (token words: bits 0-10,12,16,20,31), or basis mutation at a drawn step. Oracle after each faulted run: every listed file holds its previous content (or the externally written one) or exactly the sender's content; a session reporting success has updated every file the rule requires. script mode (every 5th run): reference sender answers with the honest token stream perturbed (other valid block index, literal runs swapped/duplicated, token dropped, truncated) but the TRUE whole-file checksum: destination must stay unchanged and the client must fail. Non-trivial = at least one fault run on a session with data replies / a perturbation denoting different bytes Script mode also covers files whose destination is absent (all-zero checksum header echoed by the sender) and single flipped literal bits.",
 		Assumptions: []string{"flips of token-word bits that declare hundreds of megabytes are not generated (resource exhaustion is outside the guarantee)", "index-word and sum-head flips are outside the property's quantifier (token words, literal bytes, trailer)", "wire bytes are identical between the fault-free and the faulted run of one process (same checksum seed inside the bubble)"},
 		Real:        realCommon, Stub: append([]string{"script mode: sending peer is the reference sender"}, stubCommon...),
 		Quick:    q(300, 50*time.Second),
@@ -88,7 +88,7 @@ var Meta = map[string]PropMeta{
 	"C04": {
 		Level:       "fault_enumeration",
 		Technique:   "deterministic simulation with fault injection: step invariant (old-or-new at every quiescent point = crash point at wire-token granularity), freeze (crash) and connection-cut faults at byte offsets of either direction, leftover-temp check after error returns",
-		Rule:        "one evaluation = one multi-file scenario (new files, replaced files, replaced symlinks, other types in the way; receiver = real client in A1/A3p, real daemon in A2/A3s) run fault-free with the atomicity invariant evaluated at every scheduler step, then re-run once per fault (cut of either direction / freeze of the receiving party at a byte offset drawn per-mille of the direction's volume; 6 faults per scenario quick, 30 thorough). Invariant: every listed path is its complete old content, its complete new content, or absent (absent only if it was absent or the type changes). After a cut: both ends return, connection closed, no non-listed entry may remain. In addition the kernel's inotify history of the destination is recorded for every run: a listed path that is replaced by an entry of the same type must never show a DELETE/MOVED_FROM event (this covers the instants between two system calls that the scheduler cannot stop at). Non-trivial = at least one regular file replaced over different content and > 20 steps",
+		Rule:        "one evaluation = one multi-file scenario (new files, replaced files, replaced symlinks, other types in the way; receiver = real client in A1/A3p, real daemon in A2/A3s) run fault-free with the atomicity invariant evaluated at every scheduler step, then re-run once per fault (cut of either direction / freeze of the receiving party at a byte offset drawn per-mille of the direction's volume; 6 faults per scenario quick, 30 thorough). Invariant: every listed path is its complete old content, its complete new content, or absent (absent only if it was absent or the type changes). After a cut: both ends return, connection closed, no non-listed entry may remain. In addition the kernel's inotify history of the destination is recorded for every run: a listed path that is replaced by an entry of the same type must never show a DELETE/MOVED_FROM event (this covers the instants between two system calls that the scheduler cannot stop at). Non-trivial = at least one regular file replaced over different content and > 20 steps A third of the runs use --delete (the delete pass must not touch listed paths); listed paths below a symlink that is still in the way of a directory are not judged at that instant.",
 		Assumptions: []string{"crash points are quiescent points (receiver parked in Read at byte N); crashes between two syscalls of one goroutine are not sampled", "power-loss durability (un-fsynced data) is not simulated: no storage seam", "freeze + snapshot stands in for SIGKILL of a subprocess (directory contents are what survives a kill)"},
 		Real:        realCommon, Stub: stubCommon,
 		Quick:    q(600, 60*time.Second),
@@ -107,7 +107,7 @@ var Meta = map[string]PropMeta{
 	"C06": {
 		Level:       "exploration",
 		Technique:   "deterministic simulation with a hostile reference receiver: the real daemon (directory- and fs.FS-backed modules, several modules whose names are prefixes of each other) receives request paths from a traversal grammar; the raw server byte stream is scanned for canary secrets and the decoded file list is checked against the module's real contents",
-		Rule:        "module line from {mod, modx, mo, modfs} and one of 45 path forms (module/.., module/../x, module//../, absolute paths, paths through inside symlinks that point to an outside directory/file/absolute directory/.., empty and '.' components, other-module prefixes, NUL and blank components) with a random subset of -r -l -c -t -p -D -o -g; the reference receiver requests every listed regular file. Oracle: the server's raw bytes never contain the content (first 40/last 64 bytes), the MD4 or the name of an object outside the module (names may occur only as link targets of inside symlinks), nor another module's content; every decoded list entry names an existing object inside the module reached without a symlink or '..'. Non-trivial = every run",
+		Rule:        "module line from {mod, modx, mo, modfs} and one of 45 path forms (module/.., module/../x, module//../, absolute paths, paths through inside symlinks that point to an outside directory/file/absolute directory/.., empty and '.' components, other-module prefixes, NUL and blank components) with a random subset of -r -l -c -t -p -D -o -g; the reference receiver requests every listed regular file. Oracle: the server's raw bytes never contain the content (first 40/last 64 bytes), the MD4 or the name of an object outside the module (names may occur only as link targets of inside symlinks), nor another module's content; every decoded list entry names an existing object inside the module reached without a symlink or '..'. Non-trivial = every run The hostile receiver also requests the 'content' of one non-regular entry (symlink, directory, device) per session; the module contains an absolute symlink that only looks internal.",
 		Assumptions: []string{"canary contents are 2 KB random strings so accidental occurrence is impossible", "link target strings of symlinks inside the module are module data and may name outside paths"},
 		Real:        realCommon, Stub: append([]string{"hostile peer: reference receiver"}, stubCommon...),
 		Quick:    q(8000, 35*time.Second),
@@ -116,7 +116,7 @@ var Meta = map[string]PropMeta{
 	"C07": {
 		Level:       "exploration",
 		Technique:   "deterministic simulation: real daemon with modules of mixed writability behind Serve(simulated listener) or HandleDaemonConn, attacked by the real pushing client and by a reference protocol-27 sender with hand-written argument lines; module snapshot as step invariant and final oracle",
-		Rule:        "daemon with modules rw (writable), ro (directory, read-only), rofs (fs.FS-backed) and r (writable, name is a prefix of the read-only ones); upload target ro|rofs plus sub-path from {'', '/', '/sub', '/sub/', '/a/b/c/', '/../rw/', '/.', existing entry}; flags: random subset of -t -p -l -D -o -g -c -I -n --delete -a (real client) or raw argument lines without --sender in several spellings (hostile client sending a list and data). Oracle: snapshot of both read-only module trees (content, mode, mtime ns, owner, link target) identical at every 4th scheduler step and at the end; the client ends with an error (@ERROR line, error frame or failed session). Non-trivial = every run (a refusal was observed)",
+		Rule:        "daemon with modules rw (writable), ro (directory, read-only), rofs (fs.FS-backed) and r (writable, name is a prefix of the read-only ones); upload target ro|rofs plus sub-path from {'', '/', '/sub', '/sub/', '/a/b/c/', '/../rw/', '/.', existing entry}; flags: random subset of -t -p -l -D -o -g -c -I -n --delete -a (real client) or raw argument lines without --sender in several spellings (hostile client sending a list and data). Oracle: snapshot of both read-only module trees (content, mode, mtime ns, owner, link target) identical at every 4th scheduler step and at the end; the client ends with an error (@ERROR line, error frame or failed session). Non-trivial = every run (a refusal was observed) A sixth of the runs are download/listing requests (also for paths that do not exist) under the same unchanged-module invariant; one server in twelve is created without DontRestrict() with landlock made a no-op.",
 		Assumptions: []string{"refproto sender is the hostile peer"},
 		Real:        realCommon, Stub: append([]string{"hostile peer: reference sender"}, stubCommon...),
 		Quick:    q(5000, 35*time.Second),
@@ -125,7 +125,7 @@ var Meta = map[string]PropMeta{
 	"C08": {
 		Level:       "fault_enumeration",
 		Technique:   "deterministic simulation with a byzantine reference peer: structure-aware single-field mutation of otherwise valid sessions (every named protocol field x value class), argument lines from the option parser's vocabulary, connection cuts at byte offsets and random noise, against the real daemon behind its real accept loop (no recover: a panic or os.Exit kills the worker process, which the driver observes) and against the real client; each hostile session is followed by a canonical valid session on the same daemon",
-		Rule:        "daemon target: one Server.Serve(simulated listener) with modules ro/rw/fsm per run, 6 (thorough 14) hostile sessions, each followed by a canonical pull whose data must be correct. Session kinds: pull-mut / push-mut (one field occurrence of greeting, module line, argument line, filter list, file index, checksum-header fields, sums, file-list flags/lengths/names/ids/links, id lists, tokens, literals, trailers, phase markers and (client target) multiplex frame headers mutated by class neg, -1, 0, +1, -1, 2^20-1, truncation after the field, noise, int32 max/min; count-like fields never above 2^20 unless negative), args (57 argument-line vectors incl. --version, --help, --info=help, --debug=help, --daemon -h, -hh, unknown and unimplemented options, wildcard filters, 70 KB option strings, odd module lines), cut-pull / cut-push (connection lost after N client bytes), noise (random bytes at 5 handshake stages). client target (every third run): real pulling/pushing client against a hostile server with mutated version/seed/list/reply/stat fields or noise, or a valid stream packed into multiplex frames of 32 KiB .. 16 MiB-1 (larger than the client's documented limit: must be refused with an error, not a crash). Oracle: worker process alive (no panic, os.Exit, fatal error), no handler or client left blocked after the hostile peer closed, canonical request served with correct bytes, client returns instead of panicking. Non-trivial = at least one canonical session verified / every client run",
+		Rule:        "daemon target: one Server.Serve(simulated listener) with modules ro/rw/fsm per run, 6 (thorough 14) hostile sessions, each followed by a canonical pull whose data must be correct. Session kinds: pull-mut / push-mut (one field occurrence of greeting, module line, argument line, filter list, file index, checksum-header fields, sums, file-list flags/lengths/names/ids/links, id lists, tokens, literals, trailers, phase markers and (client target) multiplex frame headers mutated by class neg, -1, 0, +1, -1, 2^20-1, truncation after the field, noise, int32 max/min; count-like fields never above 2^20 unless negative), args (57 argument-line vectors incl. --version, --help, --info=help, --debug=help, --daemon -h, -hh, unknown and unimplemented options, wildcard filters, 70 KB option strings, odd module lines), cut-pull / cut-push (connection lost after N client bytes), noise (random bytes at 5 handshake stages). client target (every third run): real pulling/pushing client against a hostile server with mutated version/seed/list/reply/stat fields or noise, or a valid stream packed into multiplex frames of 32 KiB .. 16 MiB-1 (larger than the client's documented limit: must be refused with an error, not a crash). Oracle: worker process alive (no panic, os.Exit, fatal error), no handler or client left blocked after the hostile peer closed, canonical request served with correct bytes, client returns instead of panicking. Non-trivial = at least one canonical session verified / every client run The hostile receiver signs nine basis layouts (exact multiples of the block length, single blocks, short strong sums); a quarter of the hostile peers linger, stalled, instead of closing, while the canonical request is served.",
 		Assumptions: []string{"stalled peers and declared multi-gigabyte sizes are outside the guarantee (never generated)", "a crash is identified by panic message and top /repo frame, which is also the known-finding key"},
 		Real:        realCommon, Stub: append([]string{"hostile peer: reference peer with single-field mutation"}, stubCommon...),
 		Quick:    q(1500, 60*time.Second),
@@ -134,7 +134,7 @@ var Meta = map[string]PropMeta{
 	"C09": {
 		Level:       "exploration",
 		Technique:   "deterministic simulation: real client and daemon over the scheduled transport in pull, push and local arrangements; seeded generation of source/destination tree pairs with extraneous entries in every sort position; reference-model oracle on the final entry set; sender-disk fault (directory listing error) raises the I/O-error flag",
-		Rule:        "recursive sync of a directory's contents with --delete (control: without), destination holds 0..6 extraneous files/directories/symlinks/fifos per run at names sorting before, between and after the listed ones, nested, optionally an --exclude rule naming a destination entry. Oracle: listed entries never removed; without --delete or with the sender's I/O-error flag raised (simulated ReadDir failure) nothing removed; with --delete every extraneous entry not protected by an exclude rule is gone and every protected one is kept. Non-trivial = --delete with >= 2 extraneous entries One scheduled run in six starts from a killed state (destination copied at a drawn scheduler step of an earlier non-dry sync with the same arguments: temporary files and half-made directories are part of the prior state; probes kill_states*).",
+		Rule:        "recursive sync of a directory's contents with --delete (control: without), destination holds 0..6 extraneous files/directories/symlinks/fifos per run at names sorting before, between and after the listed ones, nested, optionally an --exclude rule naming a destination entry. Oracle: listed entries never removed; without --delete or with the sender's I/O-error flag raised (simulated ReadDir failure) nothing removed; with --delete every extraneous entry not protected by an exclude rule is gone and every protected one is kept. Non-trivial = --delete with >= 2 extraneous entries One scheduled run in six starts from a killed state (destination copied at a drawn scheduler step of an earlier non-dry sync with the same arguments: temporary files and half-made directories are part of the prior state; probes kill_states*). Half of the runs without --delete put a non-empty directory in the way of a source file: the transfer may fail, but no destination path may disappear.",
 		Assumptions: []string{"model of exclude-rule protection: an entry is protected iff it or a parent matches an exclude rule (rsync semantics without --delete-excluded)"},
 		Real:        realCommon, Stub: append([]string{"sender disk (I/O error runs): simfs"}, stubCommon...),
 		Quick:    q(6000, 35*time.Second),
@@ -152,7 +152,7 @@ var Meta = map[string]PropMeta{
 	"C11": {
 		Level:       "exploration",
 		Technique:   "deterministic simulation as execution vehicle: in-process real client and daemon sessions in both directions at two privilege levels (root and uid 65534 worker processes), every subset of the preserve options; lstat oracle on exactly the promised fields; reference sender for name-based id mapping",
-		Rule:        "sync mode: tree of up to 12 entries with permission values drawn from 0000..0777 (a quarter lacking owner write), mtimes over the signed 32-bit range incl. pre-1970 and sub-second parts, symlink targets of arbitrary bytes, devices, fifos, sockets, foreign uids/gids (root workers); options = -r plus a random subset of -p -t -l -D -o -g; arrangements A1/A2/A3 both directions; prior destination with stale/up-to-date files carrying their own permissions. Oracle per created entry: type; with -p mode bits; with -t regular-file mtime (seconds); with -l target; with -D rdev; as root with -o/-g owner/group; without -p an existing destination file keeps its mode. A quarter of the workers run unprivileged so that directories lacking owner write permission are a real obstacle. idmap mode (every 8th run, root): reference sender names remote uid/gid 4242/4343 as nobody|daemon|<unknown>: destination ids must be the local ids of those names, else the numeric ids. Non-trivial = more than one entry checked",
+		Rule:        "sync mode: tree of up to 12 entries with permission values drawn from 0000..0777 (a quarter lacking owner write), mtimes over the signed 32-bit range incl. pre-1970 and sub-second parts, symlink targets of arbitrary bytes, devices, fifos, sockets, foreign uids/gids (root workers); options = -r plus a random subset of -p -t -l -D -o -g; arrangements A1/A2/A3 both directions; prior destination with stale/up-to-date files carrying their own permissions. Oracle per created entry: type; with -p mode bits; with -t regular-file mtime (seconds); with -l target; with -D rdev; as root with -o/-g owner/group; without -p an existing destination file keeps its mode. A quarter of the workers run unprivileged so that directories lacking owner write permission are a real obstacle. idmap mode (every 8th run, root): reference sender names remote uid/gid 4242/4343 as nobody|daemon|<unknown>: destination ids must be the local ids of those names, else the numeric ids. Non-trivial = more than one entry checked Prior destinations include wrong-type obstacles (symlink to a directory in the way of a directory, symlink to an up-to-date twin in the way of a file).",
 		Assumptions: []string{"input/configuration-quantified: schedules vary per run but do not decide this property", "directory mtimes and modes of newly created files without -p are unconstrained by the property"},
 		Real:        realCommon, Stub: stubCommon,
 		Quick:           q(6000, 35*time.Second),
@@ -162,7 +162,7 @@ var Meta = map[string]PropMeta{
 	"C12": {
 		Level:       "exploration",
 		Technique:   "deterministic simulation: a reference protocol-27 sender serves the real receiving client a file list and destination files constructed to hit every cell of the update decision table; the oracle is the set of file indices the real generator requests, read off the wire by the reference sender. Repeat-sync idempotence with real sender and receiver is decided by decoding both recorded wire directions",
-		Rule:        "table mode: per run one option combination of {-r} x {-t} x {-c} x {-I} (8 combinations, by run index) and the complete table {missing, same size + same content, other size, same size + other content} x {mtime equal, +1 s, -1 s, sub-second difference only, previous second but less than 1 s away, next second with fraction, far future, far past} plus directory/symlink in the way, names and wire order random; oracle: requested set == model (missing | not regular | size differs | -c: content differs | -I | mtime differs at 1 s granularity). repeat mode (every 4th run): real A1 sync of a random tree twice with -t/-a/-tc: second run must request nothing and move no literal byte; then the size, mtime or content of one source file is changed and exactly the rule-mandated request must follow. Non-trivial = >= 10 decided entries / first run requested files",
+		Rule:        "table mode: per run one option combination of {-r} x {-t} x {-c} x {-I} (8 combinations, by run index) and the complete table {missing, same size + same content, other size, same size + other content} x {mtime equal, +1 s, -1 s, sub-second difference only, previous second but less than 1 s away, next second with fraction, far future, far past} plus directory/symlink in the way, names and wire order random; oracle: requested set == model (missing | not regular | size differs | -c: content differs | -I | mtime differs at 1 s granularity). repeat mode (every 4th run): real A1 sync of a random tree twice with -t/-a/-tc: second run must request nothing and move no literal byte; then the size, mtime or content of one source file is changed and exactly the rule-mandated request must follow. Non-trivial = >= 10 decided entries / first run requested files Every fifth run is the decision table between two real ends in a drawn arrangement (server or local copy receiving), judged by content; one table entry in ten is an empty file.",
 		Assumptions: []string{"refproto sender is the trusted base", "mtimes within the signed 32-bit range"},
 		Real:        realCommon, Stub: append([]string{"table mode: sending peer is the reference sender"}, stubCommon...),
 		Quick:    q(2500, 35*time.Second),
@@ -198,7 +198,7 @@ var Meta = map[string]PropMeta{
 	"C16": {
 		Level:       "exploration",
 		Technique:   "deterministic simulation + wire-history monitor: literal bytes and block references counted in the real sender's token stream (decoded by the reference protocol-27 parser), with the real generator's signatures and with reference signatures at other block sizes; chunked scheduled transport and short-reading simulated disk",
-		Rule:        "1-3 high-entropy files (2 KB..3 MiB quick, ..24 MiB thorough), the sender's version = receiver's copy + 0..4 edits (insert/delete/replace of 1..20000 bytes at unaligned offsets, prepend, append, block swap). Oracle: identical file => 0 literal bytes; otherwise literal bytes <= sum(new bytes of edit + 3B per continuity break) + B with B the block length seen in the echoed checksum header; reconstruction exact. Non-trivial = edited file longer than 4 blocks; distinct = distinct scenario",
+		Rule:        "1-3 high-entropy files (2 KB..3 MiB quick, ..24 MiB thorough), the sender's version = receiver's copy + 0..4 edits (insert/delete/replace of 1..20000 bytes at unaligned offsets, prepend, append, block swap). Oracle: identical file => 0 literal bytes; otherwise literal bytes <= sum(new bytes of edit + 3B per continuity break) + B with B the block length seen in the echoed checksum header; reconstruction exact. Non-trivial = edited file longer than 4 blocks; distinct = distinct scenario A fifth of the files are 1..2100 bytes (below, at and just above one block).",
 		Assumptions: []string{"bound constant 3 is deliberately loose (an edit spoils the blocks it overlaps plus neighbours)", "refproto parser is the trusted base"},
 		Real:        realCommon, Stub: append([]string{"mode ref: receiving peer is the reference receiver"}, stubCommon...),
 		Quick:    q(1500, 45*time.Second),
@@ -218,7 +218,7 @@ var Meta = map[string]PropMeta{
 		MaxJobsPerWorker: 10,
 		Level:            "exploration",
 		Technique:        "deterministic simulation: seeded scheduler over the capacity/chunking/bias matrix with exact deadlock detection (no enabled transport action while operations are pending), stall faults, 2-32 concurrent sessions against one Server interleaved by one schedule tape; plus free-running sessions under the Go race detector at GOMAXPROCS 1/4/16",
-		Rule:             "term mode: one session A1/A2/A3/A4 with capacities from {0,1,7,64,64Ki,unbounded}^2 (daemon arrangements >= 12 bytes: both ends write their greeting first), chunking style, scheduling bias, optional stall fault, tree mixing tiny files / multi-MiB literals / multi-MiB bases; violation = deadlock or step-budget exhaustion, or a session that ends with an error under the drawn transport although it succeeds on the canonical one (schedule independence); in a quarter of the runs one literal data byte is damaged in flight (located by decoding a fault-free run) and the session must still complete with an error (error-path termination). multi mode: 2-32 concurrent pulls/uploads (distinct and identical targets) via Server.Serve(simulated listener); every session must succeed and its result must equal the same session run alone; a quarter of the workers run the free-running variant in a -race build, and a third of the multi runs on ordinary workers are free-running too (40-200 directories, 4-11 identical uploads to one fresh target) so that handlers really overlap between system calls. Non-trivial = more than 50 scheduler steps (term) or >= 2 sessions on a non-empty tree (multi)",
+		Rule:             "term mode: one session A1/A2/A3/A4 with capacities from {0,1,7,64,64Ki,unbounded}^2 (daemon arrangements >= 12 bytes: both ends write their greeting first), chunking style, scheduling bias, optional stall fault, tree mixing tiny files / multi-MiB literals / multi-MiB bases; violation = deadlock or step-budget exhaustion, or a session that ends with an error under the drawn transport although it succeeds on the canonical one (schedule independence); in a quarter of the runs one literal data byte is damaged in flight (located by decoding a fault-free run) and the session must still complete with an error (error-path termination). multi mode: 2-32 concurrent pulls/uploads (distinct and identical targets) via Server.Serve(simulated listener); every session must succeed and its result must equal the same session run alone; a quarter of the workers run the free-running variant in a -race build, and a third of the multi runs on ordinary workers are free-running too (40-200 directories, 4-11 identical uploads to one fresh target) so that handlers really overlap between system calls. Non-trivial = more than 50 scheduler steps (term) or >= 2 sessions on a non-empty tree (multi) A third of the multi-session runs contain stalled peers (1-3, sometimes 17-24) that stop reading in mid-transfer, scheduled or free-running (60 s wall-clock deadline): every other session must finish. One run in fifteen starts the real daemon with its anonymous SSH listener and mixes silent peers with daemon sessions. A deadlocked session is re-run on the canonical transport: if it ends with an error there, the hang is an error-path hang (recorded finding for A2/A3s), else a deadlock of a valid session.",
 		Assumptions:      []string{"race detection is happens-before analysis on free-running in-memory transports (not schedule search): the deterministic scheduler would add happens-before edges", "A4 interleaving is chosen by the Go runtime; hang detection there is exact via synctest quiescence", "capacities below 12 bytes are not generated for daemon arrangements (greeting deadlock is protocol-inherent)"},
 		Real:             realCommon, Stub: stubCommon,
 		Quick:        q(1500, 60*time.Second),
